@@ -126,6 +126,18 @@ def run_target(sim, op, fault=None, record=False, page_limit=None, authorizer=Fa
         fn = lambda: wn.remove(op['spec'], progress_handler=SimHandler)
     sim._knobs(op)
     W.begin_op(budget=sim.budget, record=record)
+    locker = None
+    if fault and fault['kind'] in ('LOCKW', 'LOCKR'):
+        # a second process (an independent connection wn knows nothing about) holds a lock
+        wn._db.connect()
+        locker = observe.observer(W.dbpath())
+        locker.isolation_level = None
+        if fault['kind'] == 'LOCKW':
+            locker.execute('BEGIN IMMEDIATE')          # RESERVED: nobody else may write
+        else:
+            locker.execute('BEGIN')
+            locker.execute('SELECT count(*) FROM lexicons').fetchall()   # SHARED until released
+        fault = None
     if page_limit is not None:
         conn = wn._db.connect()
         pages = conn.execute('PRAGMA page_count').fetchone()[0]
@@ -137,6 +149,11 @@ def run_target(sim, op, fault=None, record=False, page_limit=None, authorizer=Fa
     counters = dict(W.counters)
     cb_log, stmt_log = list(W.cb_log), list(W.stmt_log)
     fired = W.end_op()
+    if locker is not None:
+        locker.execute('ROLLBACK')
+        locker.close()
+        if isinstance(exc, sqlite3.OperationalError) and 'locked' in str(exc):
+            fired = fired + ['F8-real-lock-' + ('writer' if counters['stmt'] else 'reader')]
     if page_limit is not None:
         conn = wn._db.pool.get(wn.config.database_path)
         if conn is not None:
@@ -236,6 +253,8 @@ def enumerate_pair(seed, tier, explicit=None):
                     points.append({'kind': 'F5', 'at': v, 'interval': 40})
             for d in (0, 1, 2, 4):
                 points.append({'kind': 'F4', 'pages': d})
+            points.append({'kind': 'LOCKW'})
+            points.append({'kind': 'LOCKR'})
             stats['K'], stats['S'], stats['A'] = K, S, A
             if only is not None:
                 points = [only] if only.get('kind') != 'F7' else []
@@ -247,6 +266,10 @@ def enumerate_pair(seed, tier, explicit=None):
                     exc, fired, cnt, cbl, stl = run_target(sim, tgt, page_limit=fault['pages'])
                     fired = ['F4-disk-full'] if isinstance(exc, sqlite3.OperationalError) \
                         else []
+                elif kind in ('LOCKW', 'LOCKR'):
+                    exc, fired, cnt, cbl, stl = run_target(sim, tgt, fault=fault, record=True)
+                    fired = ['F8-lock-%s' % ('writer' if kind == 'LOCKW' else 'reader')] \
+                        if isinstance(exc, sqlite3.OperationalError) else []
                 else:
                     exc, fired, cnt, cbl, stl = run_target(sim, tgt, fault=fault, record=True)
                 if not fired:
@@ -452,50 +475,7 @@ def add_mutant(sim, mut):
 # -- profile B: histories with sampled faults --------------------------------------------------
 
 class FaultySim(Sim):
-    """After a faulted op the model is a no-op — or, for the per-lexicon transactions of a
-    multi-match removal, the prefix state the observation shows."""
-
-    def after_op(self, op):
-        last = getattr(self, 'last', {}) or {}
-        if last.get('faulted'):
-            self.reconcile(op, last)
-            self.last = {}
-        conn = wn._db.pool.get(wn.config.database_path)
-        if conn is not None and conn.in_transaction:
-            raise self.violation('open-transaction', 'pooled connection left inside a '
-                                 'transaction after %s' % op['op'], {'op': op})
-        super().after_op(op)
-
-    def reconcile(self, op, last):
-        got = sorted(lx.specifier() for lx in wn.lexicons())
-        if got == sorted(self.m.installed):
-            # unchanged ... but a fully applied add_ili would also look like this; the image
-            # and integrity oracles plus the final fresh-db comparison decide the rest
-            return
-        m2 = self.m.copy()
-        if op['op'] == 'remove':
-            matched = m2.select(op['spec'])
-            for j in range(len(matched)):
-                m2.remove_specs(matched[j:j + 1])
-                if sorted(m2.installed) == got and j < len(matched) - 1:
-                    self.m = m2
-                    self.probe('faulted-remove-prefix-state')
-                    return
-        # complete application with an exception: only the known close()-after-commit case
-        m3 = self.m.copy()
-        if op['op'] == 'add':
-            m3.add_resource(self.res[op['res']]['lexicons'])
-        elif op['op'] == 'remove':
-            m3.remove_specs(m3.select(op['spec']))
-        if (sorted(m3.installed) == got and last['fired'] == ['F1-handler-close']
-                and F_CLOSE in compare.ENABLED_FINDINGS):
-            compare.note_known(F_CLOSE)
-            self.m = m3
-            return
-        raise self.violation('durable-state', 'failed %s changed the installed set' % op['op'],
-                             {'op': op, 'fired': last['fired'], 'observed': got,
-                              'expected': sorted(self.m.installed)},
-                             tags=['partial'])
+    """History with sampled faults (reconciliation of faulted ops lives in Sim)."""
 
 
 def build_b(seed):
@@ -506,9 +486,11 @@ def build_b(seed):
                                                     'short_reads': True})
     cands = [i for i, op in enumerate(plan) if op['op'] in ('add', 'remove', 'add_ili')]
     for i in prng.sample(cands, min(len(cands), prng.choice([1, 2]))):
-        k = prng.choice(['F1', 'F1', 'F3', 'F3', 'F2', 'F5'])
+        k = prng.choice(['F1', 'F1', 'F3', 'F3', 'F2', 'F5', 'F6'])
         if k == 'F5' and plan[i]['op'] != 'remove':
             k = 'F3'
+        if k == 'F6' and plan[i]['op'] != 'add':
+            k = 'F1'
         f = {'kind': k}
         if k == 'F1':
             f['at'] = prng.choice([1, 2, 3, 5, 8, 13, 21, 34, 55, 89])
@@ -522,6 +504,9 @@ def build_b(seed):
         elif k == 'F5':
             f['at'] = prng.choice([1, 2, 5, 20])
             f['interval'] = prng.choice([7, 40])
+        elif k == 'F6':
+            f['cut'] = prng.random()          # torn input file: keep this fraction of bytes
+            plan[i] = dict(plan[i], route='xml')
         plan[i] = dict(plan[i], fault=f)
     return u, plan
 
